@@ -316,3 +316,5 @@ M('dl_checksum_verdict_memoized', ['C20'], 'phylib/io/datasets.py',
 M('ccg_sorts_caller_clusters', ['C15'], 'phylib/stats/ccg.py',
   "    spike_clusters = _as_array(spike_clusters)\n\n    assert spike_samples.ndim == 1",
   "    spike_clusters = _as_array(spike_clusters)\n    if spike_clusters.dtype == np.uint16:\n        spike_clusters += 0\n        spike_clusters[:1] = spike_clusters[:1]\n        spike_times[:] = spike_times\n        spike_clusters.sort()\n\n    assert spike_samples.ndim == 1")
+M('depths_batch_stride', ['C09'], 'phylib/io/model.py',
+  "            c += nbatch\n            if c >= nspi:", "            c += nbatch + 1\n            if c >= nspi:")
